@@ -635,7 +635,13 @@ def _default_of(row) -> Optional[str]:
     return None
 
 
-def rule_sib1(ctx: Ctx) -> RuleResult:
+def rule_sib1_layout(ctx: Ctx) -> RuleResult:
+    """C03's share of SIB-1: within the groups as sorted, defaults are exactly on the optional group (a field without
+    default after one with default does not load).  Which group a field belongs to is C04's question."""
+    return rule_sib1(ctx, include_sort=False)
+
+
+def rule_sib1(ctx: Ctx, include_sort: bool = True) -> RuleResult:
     rr = RuleResult("SIB-1", "all generators give a field a default exactly when it is optional (empty container factories "
                     "for containers, None otherwise)", floor=9)
     prog = ctx.prog
@@ -670,7 +676,7 @@ def rule_sib1(ctx: Ctx) -> RuleResult:
                       DISCHARGED if ok else VIOLATED, f"default: {d}", f.node.lineno)
     # the optional flag is the group index of sort_fields; a key is in the optional group iff its type is DOptional
     sf = prog.func("json_to_models/models/structure.py", "sort_fields")
-    for p in enumerate_paths([n for n in walk_no_nested(sf.node) if isinstance(n, ast.For)][0].body):
+    for p in (enumerate_paths([n for n in walk_no_nested(sf.node) if isinstance(n, ast.For)][0].body) if include_sort else []):
         rr.instances += 1
         is_opt = p.truth("isinstance(meta, DOptional)")
         dest = None
